@@ -44,11 +44,14 @@ def ufn(name, *sorts):
 
 
 _counter = itertools.count()
+ENTRY_TERMS, FRESH_TERMS = {}, {}
 
 
 def reset_fresh():
   global _counter
   _counter = itertools.count()
+  ENTRY_TERMS.clear()
+  FRESH_TERMS.clear()
 
 
 def fresh_name(base):
@@ -388,13 +391,53 @@ class Heap(object):
     return self.get('lmem')(l, e)
 
 
+# Syntactic aliasing knowledge (formula size only, never a new assumption): a term registered as allocated
+# at function entry (the state also carries the hypothesis entry.alloc(t)) cannot be an object allocated
+# later (hypothesis not entry.alloc(t') at its allocation, allocation is monotone), and two objects
+# allocated at different sites of one path are different.  obj_ite uses this to skip `If(s == a0, ..)`
+# layers that the solver would otherwise have to refute one by one through the allocation axioms.
+
+
+def reset_known():
+  ENTRY_TERMS.clear()
+  FRESH_TERMS.clear()
+
+
+def mark_entry(t):
+  ENTRY_TERMS[t.get_id()] = t
+
+
+def mark_fresh(t):
+  FRESH_TERMS[t.get_id()] = t
+
+
+def known_distinct(a, b):
+  ia, ib = a.get_id(), b.get_id()
+  if ia == ib:
+    return False
+  if ia in FRESH_TERMS and (ib in ENTRY_TERMS or ib in FRESH_TERMS or b.eq(NONE)):
+    return True
+  if ib in FRESH_TERMS and (ia in ENTRY_TERMS or a.eq(NONE)):
+    return True
+  return False
+
+
+def obj_ite(s, a0, then, other):
+  """If(s == a0, then(), other()) with syntactically decided cases removed."""
+  if s.eq(a0):
+    return then()
+  if known_distinct(s, a0):
+    return other()
+  return z3.If(s == a0, then(), other())
+
+
 def upd2(old, a0, fn_new):
   """Pointwise update of a binary heap component at first argument a0."""
-  return lambda s, e: z3.If(s == a0, fn_new(e), old(s, e))
+  return lambda s, e: obj_ite(s, a0, lambda: fn_new(e), lambda: old(s, e))
 
 
 def upd1(old, a0, new_val):
-  return lambda s: z3.If(s == a0, new_val, old(s))
+  return lambda s: obj_ite(s, a0, lambda: new_val, lambda: old(s))
 
 
 # ------------------------------------------------------------------ quantifiers with explicit triggers
